@@ -612,7 +612,42 @@ func ctorFunc(file, recv, name string, fields map[string]fieldSpec, recvAs *fiel
 		}}
 }
 
+// ---- round 4, C13: the small writers.  global.go (*loggerWriter).Write (the standard-library log bridge), zaptest
+// TestingWriter.Write, zapcore AddSync / writerWrapper.Sync / Lock / NewMultiWriteSyncer.  The log function, testing.TB,
+// bytes.TrimSpace / TrimRight and the type assertions are parameters / recorded intrinsics.
+func writerFunc(file, recv, name string, fields map[string]fieldSpec, recvAs *fieldSpec, extra map[string]shim) transFunc {
+	lean := name
+	if recv != "" {
+		lean = recv + "_" + name
+	}
+	return transFunc{file: file, recv: recv, name: name, lean: lean, fields: merge2(map[string]fieldSpec{"#ev": {"ev", "[]Event"}}, fields), recvAs: recvAs,
+		types: map[string]string{"io.Writer": "opt:Writer", "WriteSyncer": "opt:WriteSyncer", "writerWrapper": "struct:WriterWrapper",
+			"lockedWriteSyncer": "struct:LockedWS", "multiWriteSyncer": "[]opt:WriteSyncer"},
+		structs: map[string][]fieldSpec{"WriterWrapper": {{"Writer", "opt:Writer"}}, "LockedWS": {{"Mutex", "opt:Mutex"}, {"ws", "opt:WriteSyncer"}}},
+		implements: map[string]string{"struct:WriterWrapper": "opt:WriteSyncer", "ptr:struct:LockedWS": "opt:WriteSyncer",
+			"[]opt:WriteSyncer": "opt:WriteSyncer"},
+		calls: merge(map[string]shim{
+			"bytes.TrimSpace": {kind: "ext", f: "bytes.TrimSpace", res: []string{"bytes"}},
+			"bytes.TrimRight": {kind: "ext", f: "bytes.TrimRight", res: []string{"bytes"}},
+		}, extra)}
+}
+
 var transSpecs = []transSpec{
+	{table: "TransWriters", funcs: []transFunc{
+		writerFunc("global.go", "loggerWriter", "Write", map[string]fieldSpec{"logFunc": {"logFunc", "LogFunc"}}, nil, map[string]shim{
+			// l.logFunc(msg): the call of the function value held by the receiver — recorded, handed that value and the message
+			"recv.logFunc": {kind: "extstmt", f: "LogFunc.call", with: []string{"logFunc"}, trace: "#ev"}}),
+		writerFunc("zaptest/logger.go", "TestingWriter", "Write",
+			map[string]fieldSpec{"t": {"t", "TB"}, "markFailed": {"markFailed", "bool"}}, nil, map[string]shim{
+				"TB.Logf": {kind: "extstmt", f: "TB.Logf", trace: "#ev"},
+				"TB.Fail": {kind: "extstmt", f: "TB.Fail", trace: "#ev"}}),
+		writerFunc("zapcore/write_syncer.go", "", "AddSync", nil, nil, map[string]shim{
+			".(WriteSyncer)": {kind: "extstmt", f: "assert.WriteSyncer", res: []string{"opt:WriteSyncer", "bool"}}}),
+		writerFunc("zapcore/write_syncer.go", "writerWrapper", "Sync", map[string]fieldSpec{"Writer": {"w", "opt:Writer"}}, nil, nil),
+		writerFunc("zapcore/write_syncer.go", "", "Lock", nil, nil, map[string]shim{
+			".(*lockedWriteSyncer)": {kind: "extstmt", f: "assert.lockedWriteSyncer", res: []string{"opt:LockedWS", "bool"}}}),
+		writerFunc("zapcore/write_syncer.go", "", "NewMultiWriteSyncer", nil, nil, nil),
+	}},
 	{table: "TransCtor", funcs: []transFunc{
 		ctorFunc("zapcore/increase_level.go", "", "NewIncreaseLevelCore", nil, nil),
 		ctorFunc("zapcore/increase_level.go", "levelFilterCore", "Level",
